@@ -271,4 +271,19 @@ theorem rejected_task_reuse_history :
        .stored, .stored, .accepted, .already, .readonly] ∧
     ((hrun Impl.repaired hP hOps).map (·.1.registry)).getLast? = some [3] := by decide
 
+/-! ### non-vacuity of the named hypotheses `FlagsOk` / `Admissible` (audit round 8, item 6): the history above without its last (refused) assignment —
+    classes with two declared parameters (a path that is really coerced from a `str`, an `int` with a default) and a container type (`list` of configurations) -/
+def hOpsAdm : List HOp := hOps.dropLast
+
+theorem hP_flagsOk : FlagsOk Impl.repaired hP.g hP.flags := by intro m hm; cases hm
+
+theorem hOpsAdm_admissible : Admissible Impl.repaired hP hOpsAdm := by
+  simp only [hOpsAdm, hOps, List.dropLast, Admissible]
+  refine ⟨?_, ?_, ?_, ?_, ?_, ?_, ?_, ?_, ?_, ?_, trivial⟩ <;> (intro n k v h; cases h <;> decide)
+
+/-- `history_sound` applies and says something: the one accepted submit (node 3) had nothing missing reachable at that moment. -/
+example := history_sound Impl.repaired (by decide) hP hOpsAdm hP_flagsOk hOpsAdm_admissible
+example : (hrun Impl.repaired hP hOpsAdm).map (·.2.2) =
+    [.invalid, .rejected .missing, .stored, .rejected .missing, .stored, .rejected .missing, .stored, .stored, .accepted, .already] := by decide
+
 end XpmVerif.C15
